@@ -14,7 +14,7 @@ cp "$DIR/demo.rs" tests/seed_demo.rs
 export CARGO_NET_OFFLINE=true CARGO_TARGET_DIR=/tmp/seedverify/target-${SEED_WORKER:-0}
 run_demo() { timeout 600 cargo test --offline --features "$FEAT" --test seed_demo >"$1" 2>&1; echo $?; }
 DEMO_CLEAN=$(run_demo "$DIR/demo_clean.log")
-if ! git apply "$DIR/patch.diff"; then echo '{"applies": false}' > "$DIR/meta.verify.json"; exit 1; fi
+if ! git apply "$DIR/patch.diff" 2>/dev/null && ! git apply -3 "$DIR/patch.diff"; then echo '{"applies": false}' > "$DIR/meta.verify.json"; exit 1; fi
 timeout 900 cargo build --offline --features "$FEAT" >"$DIR/build.log" 2>&1; BUILD=$?
 DEMO_MUT=$(run_demo "$DIR/demo_mutant.log")
 rm -f tests/seed_demo.rs
